@@ -165,6 +165,35 @@ def leanchecker(modules):
 
 
 USED_LAYERS = set()
+# the first driver conversations of this run (layer, input lines, output lines), kept so that the thorough tier can
+# replay them through Lean's interpreter (`lean --run`) and compare with what the natively compiled driver answered
+DRIVER_SAMPLE = []
+DRIVER_SAMPLE_MAX_LINES = 4000
+DRIVER_SAMPLE_MAX_CONV = 10      # every replay pays the interpreter's start-up (it elaborates Driver/Main.lean)
+
+
+def interpreter_cross_run():
+    """-> (conversations replayed, lines compared, first difference or None).  The theorems are about the kernel's
+    reading of the model definitions; the correspondence runs their COMPILED form (Lean compiler + C toolchain).  This
+    re-runs a sample through the IR interpreter, which shares the front end but not the C back end or the linker."""
+    n_conv = n_lines = 0
+    main = os.path.join(LEAN_DIR, "Driver", "Main.lean")
+    for layer, lines, out in DRIVER_SAMPLE:
+        pr = subprocess.run(["lake", "env", "lean", "--run", main, layer], cwd=LEAN_DIR, timeout=1800,
+                            input="\n".join(lines) + "\n", capture_output=True, text=True)
+        if pr.returncode != 0:
+            raise Infra("interpreter run of the driver failed (layer %s): %s" % (layer, pr.stderr[-1500:]))
+        got = pr.stdout.split("\n")
+        if got and got[-1] == "":
+            got.pop()
+        n_conv += 1
+        n_lines += len(lines)
+        if got != out:
+            k = next((i for i, (a, b) in enumerate(zip(got, out)) if a != b), min(len(got), len(out)))
+            return n_conv, n_lines, {"layer": layer, "line": lines[k] if k < len(lines) else None,
+                                     "compiled": out[k] if k < len(out) else None,
+                                     "interpreted": got[k] if k < len(got) else None}
+    return n_conv, n_lines, None
 
 
 def run_driver(layer, lines, timeout=600):
@@ -181,6 +210,9 @@ def run_driver(layer, lines, timeout=600):
         out.pop()
     if len(out) != len(lines):
         raise Infra("driver returned %d lines for %d ops" % (len(out), len(lines)))
+    if (len(DRIVER_SAMPLE) < DRIVER_SAMPLE_MAX_CONV
+            and sum(len(c[1]) for c in DRIVER_SAMPLE) + len(lines) <= DRIVER_SAMPLE_MAX_LINES):
+        DRIVER_SAMPLE.append((layer, list(lines), list(out)))
     return out
 
 
@@ -330,6 +362,12 @@ def _main_check(ctx, pm, replay):
     # 4. correspondence + oracle
     out = Outcome()
     pm.run(ctx, out)
+    if ctx.tier == "thorough" and DRIVER_SAMPLE:
+        n_conv, n_lines, diff = interpreter_cross_run()
+        if diff:
+            raise Infra("the compiled driver and Lean's interpreter disagree on the model: %s" % diff)
+        ctx.notes.append("interpreter cross-run: %d driver conversations (%d lines) replayed through `lean --run`, "
+                         "identical to the compiled driver's answers" % (n_conv, n_lines))
 
     # 5. decide
     violations = 0
